@@ -1,6 +1,22 @@
 (* C18 model driver: same line protocol as harness/drivers/c18_driver.c;
    prints what [run_scn inst faults] says. *)
+let ints l = String.concat " " (List.map (fun n -> string_of_int (int_of_nat n)) l)
+
+(* "labels-table": for every instance, the labels of its operation's cleanup blocks and the
+   labels entered by the no-fault run (k 0) and by each single-fault run (k >= 1) *)
+let dump_labels () =
+  Printf.printf "dead %s\n" (ints dead_labels);
+  List.iter (fun id ->
+    if int_of_nat id < 100 then begin
+      Printf.printf "L %d all %s\n" (int_of_nat id) (ints (op_labels_of id));
+      for k = 0 to 17 do
+        let l = labels_at id (nat_of_int k) in
+        if l <> [] then Printf.printf "L %d k %d %s\n" (int_of_nat id) k (ints l)
+      done
+    end) inst_ids
+
 let handle (lines : string list) : unit =
+  if List.mem "labels-table" lines then dump_labels () else
   let id = ref (-1) and ks = ref None in
   List.iter (fun l ->
     match words l with
